@@ -445,32 +445,31 @@ def call1 (fixed : Bool) (h : Host) (fds : Fds) (m : Mem) (fn : String) (a : Lis
 
 /-- the 24 functions of this file; 32-bit parameters are reduced with `w32`, 64-bit ones with `% 2^64` -/
 def call2e (fixedRecv : Bool) (h : Host) (fds : Fds) (m : Mem) (fn : Fn2) (a : List Nat) : Option (List Res) :=
-  match fn, a with
-  | .fd_readdir, [fd, b, l, c, r] => some (fdReaddir h fds m (w32 fd) (w32 b) (w32 l) (c % W64) (w32 r))
-  | .path_open, [fd, _, p, l, o, _, _, _, r] => some (pathOpen fds m (w32 fd) (w32 p) (w32 l) (w32 o) (w32 r))
-  | .path_filestat_get, [fd, _, p, l, r] => some (pathFilestatGet fds m (w32 fd) (w32 p) (w32 l) (w32 r))
-  | .path_readlink, [fd, p, l, b, bl, r] => some (pathReadlink fds m (w32 fd) (w32 p) (w32 l) (w32 b) (w32 bl) (w32 r))
-  | .fd_fdstat_set_flags, [fd, f] => some (fdFdstatSetFlags fds (w32 fd) (w32 f))
-  | .fd_filestat_set_size, [fd, _] => some (fdFilestatSetSize fds (w32 fd))
-  | .fd_filestat_set_times, [fd, _, _, f] => some (fdFilestatSetTimes fds (w32 fd) (w32 f))
-  | .path_filestat_set_times, [fd, _, p, l, _, _, f] => some (pathFilestatSetTimes fds m (w32 fd) (w32 p) (w32 l) (w32 f))
-  | .fd_allocate, [fd, o, l] => some (fdAllocate fds (w32 fd) (o % W64) (l % W64))
-  | .fd_advise, [fd, _, _, adv] => some (fdAdvise fds (w32 fd) (w32 adv))
-  | .fd_datasync, [fd] => some (fdSyncLike fds (w32 fd))
-  | .fd_sync, [fd] => some (fdSyncLike fds (w32 fd))
-  | .fd_fdstat_set_rights, [_, _, _] => some (rE enosys)
-  | .path_create_directory, [fd, p, l] => some (pathOp fds m (w32 fd) (w32 p) (w32 l))
-  | .path_remove_directory, [fd, p, l] => some (pathOp fds m (w32 fd) (w32 p) (w32 l))
-  | .path_unlink_file, [fd, p, l] => some (pathOp fds m (w32 fd) (w32 p) (w32 l))
-  | .path_rename, [fd, p, l, fd2, p2, l2] => some (pathOp2 fds m (w32 fd) (w32 p) (w32 l) (w32 fd2) (w32 p2) (w32 l2))
-  | .path_symlink, [o, ol, fd, n, nl] => some (pathSymlink fds m (w32 o) (w32 ol) (w32 fd) (w32 n) (w32 nl))
-  | .path_link, [fd, _, p, l, fd2, p2, l2] => some (pathOp2 fds m (w32 fd) (w32 p) (w32 l) (w32 fd2) (w32 p2) (w32 l2))
-  | .sock_accept, [fd, _, r] => some (sockAccept fds m (w32 fd) (w32 r))
-  | .sock_recv, [fd, iovs, cnt, f, r, r2] => some (sockRecv fixedRecv fds m (w32 fd) (w32 iovs) (w32 cnt) (w32 f) (w32 r) (w32 r2))
-  | .sock_send, [fd, iovs, cnt, f, r] => some (sockSend fds m (w32 fd) (w32 iovs) (w32 cnt) (w32 f) (w32 r))
-  | .sock_shutdown, [fd, how] => some (sockShutdown fds (w32 fd) (w32 how))
-  | .proc_raise, [_] => some (rE enosys)
-  | _, _ => none
+  match fn with
+  | .fd_readdir => (match a with | [fd, b, l, c, r] => some (fdReaddir h fds m (w32 fd) (w32 b) (w32 l) (c % W64) (w32 r)) | _ => none)
+  | .path_open => (match a with | [fd, _, p, l, o, _, _, _, r] => some (pathOpen fds m (w32 fd) (w32 p) (w32 l) (w32 o) (w32 r)) | _ => none)
+  | .path_filestat_get => (match a with | [fd, _, p, l, r] => some (pathFilestatGet fds m (w32 fd) (w32 p) (w32 l) (w32 r)) | _ => none)
+  | .path_readlink => (match a with | [fd, p, l, b, bl, r] => some (pathReadlink fds m (w32 fd) (w32 p) (w32 l) (w32 b) (w32 bl) (w32 r)) | _ => none)
+  | .fd_fdstat_set_flags => (match a with | [fd, f] => some (fdFdstatSetFlags fds (w32 fd) (w32 f)) | _ => none)
+  | .fd_filestat_set_size => (match a with | [fd, _] => some (fdFilestatSetSize fds (w32 fd)) | _ => none)
+  | .fd_filestat_set_times => (match a with | [fd, _, _, f] => some (fdFilestatSetTimes fds (w32 fd) (w32 f)) | _ => none)
+  | .path_filestat_set_times => (match a with | [fd, _, p, l, _, _, f] => some (pathFilestatSetTimes fds m (w32 fd) (w32 p) (w32 l) (w32 f)) | _ => none)
+  | .fd_allocate => (match a with | [fd, o, l] => some (fdAllocate fds (w32 fd) (o % W64) (l % W64)) | _ => none)
+  | .fd_advise => (match a with | [fd, _, _, adv] => some (fdAdvise fds (w32 fd) (w32 adv)) | _ => none)
+  | .fd_datasync => (match a with | [fd] => some (fdSyncLike fds (w32 fd)) | _ => none)
+  | .fd_sync => (match a with | [fd] => some (fdSyncLike fds (w32 fd)) | _ => none)
+  | .fd_fdstat_set_rights => (match a with | [_, _, _] => some (rE enosys) | _ => none)
+  | .path_create_directory => (match a with | [fd, p, l] => some (pathOp fds m (w32 fd) (w32 p) (w32 l)) | _ => none)
+  | .path_remove_directory => (match a with | [fd, p, l] => some (pathOp fds m (w32 fd) (w32 p) (w32 l)) | _ => none)
+  | .path_unlink_file => (match a with | [fd, p, l] => some (pathOp fds m (w32 fd) (w32 p) (w32 l)) | _ => none)
+  | .path_rename => (match a with | [fd, p, l, fd2, p2, l2] => some (pathOp2 fds m (w32 fd) (w32 p) (w32 l) (w32 fd2) (w32 p2) (w32 l2)) | _ => none)
+  | .path_symlink => (match a with | [o, ol, fd, n, nl] => some (pathSymlink fds m (w32 o) (w32 ol) (w32 fd) (w32 n) (w32 nl)) | _ => none)
+  | .path_link => (match a with | [fd, _, p, l, fd2, p2, l2] => some (pathOp2 fds m (w32 fd) (w32 p) (w32 l) (w32 fd2) (w32 p2) (w32 l2)) | _ => none)
+  | .sock_accept => (match a with | [fd, _, r] => some (sockAccept fds m (w32 fd) (w32 r)) | _ => none)
+  | .sock_recv => (match a with | [fd, iovs, cnt, f, r, r2] => some (sockRecv fixedRecv fds m (w32 fd) (w32 iovs) (w32 cnt) (w32 f) (w32 r) (w32 r2)) | _ => none)
+  | .sock_send => (match a with | [fd, iovs, cnt, f, r] => some (sockSend fds m (w32 fd) (w32 iovs) (w32 cnt) (w32 f) (w32 r)) | _ => none)
+  | .sock_shutdown => (match a with | [fd, how] => some (sockShutdown fds (w32 fd) (w32 how)) | _ => none)
+  | .proc_raise => (match a with | [_] => some (rE enosys) | _ => none)
 
 /-- the same, by name -/
 def call2 (fixedRecv : Bool) (h : Host) (fds : Fds) (m : Mem) (fn : String) (a : List Nat) : Option (List Res) :=
@@ -486,15 +485,16 @@ def call (fixed fixedRecv : Bool) (h : Host) (fds : Fds) (m : Mem) (fn : String)
   | none => call2 fixedRecv h fds m fn a
 
 /-- designated output regions of the 24 functions of this file (arguments already reduced to 32 bits) -/
-def designated2e (m : Mem) : Fn2 → List Nat → List (Nat × Nat)
-  | .fd_readdir, [_, b, l, _, r] => [(b, l), (r, 4)]
-  | .path_open, [_, _, _, _, _, _, _, _, r] => [(r, 4)]
-  | .path_filestat_get, [_, _, _, _, r] => [(r, 64)]
-  | .path_readlink, [_, _, _, b, bl, r] => [(b, bl), (r, 4)]
-  | .sock_accept, [_, _, r] => [(r, 4)]
-  | .sock_recv, [_, iovs, cnt, _, r, r2] => iovRegions m iovs cnt 0 ++ [(r, 4), (r2, 2)]
-  | .sock_send, [_, _, _, _, r] => [(r, 4)]
-  | _, _ => []
+def designated2e (m : Mem) (fn : Fn2) (a : List Nat) : List (Nat × Nat) :=
+  match fn with
+  | .fd_readdir => (match a with | [_, b, l, _, r] => [(b, l), (r, 4)] | _ => [])
+  | .path_open => (match a with | [_, _, _, _, _, _, _, _, r] => [(r, 4)] | _ => [])
+  | .path_filestat_get => (match a with | [_, _, _, _, r] => [(r, 64)] | _ => [])
+  | .path_readlink => (match a with | [_, _, _, b, bl, r] => [(b, bl), (r, 4)] | _ => [])
+  | .sock_accept => (match a with | [_, _, r] => [(r, 4)] | _ => [])
+  | .sock_recv => (match a with | [_, iovs, cnt, _, r, r2] => iovRegions m iovs cnt 0 ++ [(r, 4), (r2, 2)] | _ => [])
+  | .sock_send => (match a with | [_, _, _, _, r] => [(r, 4)] | _ => [])
+  | _ => []
 
 /-- Output regions the signature designates, over the naturals (no wrap-around; arguments already reduced to 32
 bits); mirror of `designated` in harness/cmd/hc15/spec.go (the harness compares the two tables on every generated
